@@ -250,3 +250,79 @@ def _mk_box_fold(owner_name):
 
 _mk_box_fold("JordanCurve")
 _mk_box_fold("DefinedShape")
+
+
+def _mk_pursue(nsegs):
+    tag = "x".join(map(str, nsegs))
+
+    @proof(f"C01.pursue-path[{tag}]", "C01", funcs=["shape.FollowPath.pursue_path"], abstract=True, props=["C01", "C05"], max_paths=60000, timeout=900,
+           tier="quick" if sum(nsegs) <= 4 else "thorough")
+    def _(h):
+        """path chasing with the point relations uninterpreted (`end point of segment s lies on curve j`, `equals the
+        start point of segment (j, m)`): for the enumerated structure the loop always terminates, the result starts
+        with the requested segment, visits no segment twice, and every step either continues along the same curve
+        (when no other curve passes through the end point) or switches to a segment of another curve that *starts*
+        at that end point."""
+        if not h.sym:
+            return
+        eng = Engine.cur
+        nj = len(nsegs)
+        pts = {}
+        jords = []
+        for i, n in enumerate(nsegs):
+            segs = []
+            for k in range(n):
+                a, b = Point2D(1000 * i + k, 0), Point2D(1000 * i + k + 1, 0)
+                a.key, b.key = ("start", i, k), ("end", i, k)
+                sg = object.__new__(PlanarCurve)
+                sg._fake = (a, b)
+                segs.append(sg)
+            j = object.__new__(JordanCurve)
+            j._segs = tuple(segs)
+            j.idx = i
+            jords.append(j)
+        on = {}
+        eq = {}
+
+        def ON(i, k, j):
+            if (i, k, j) not in on:
+                on[(i, k, j)] = eng.fresh_bool(f"on_{i}_{k}_{j}")
+            return on[(i, k, j)]
+
+        def EQP(i, k, j, m):
+            if (i, k, j, m) not in eq:
+                v = eng.fresh_bool(f"eq_{i}_{k}_{j}_{m}")
+                eng.assume(z3.Implies(v.t, ON(i, k, j).t))  # a start point of curve j lies on curve j
+                eq[(i, k, j, m)] = v
+            return eq[(i, k, j, m)]
+
+        def stub_contains(jordan, point):
+            kind, i, k = point.key
+            if kind != "end" or jordan.idx == i:
+                raise CalleePre("only `end point of the current segment in another curve` is asked")
+            return bool(ON(i, k, jordan.idx))
+
+        def stub_pt_eq(p, q):
+            if getattr(p, "key", ("",))[0] == "start" and getattr(q, "key", ("",))[0] == "end":
+                return bool(EQP(q.key[1], q.key[2], p.key[1], p.key[2]))
+            raise CalleePre("only `start point of a candidate segment == end point of the current one` is asked")
+
+        with h.stubs({(JordanCurve, "segments"): property(lambda self: self._segs), (PlanarCurve, "ctrlpoints"): property(lambda self: self._fake),
+                      (JordanCurve, "__contains__"): stub_contains, (Point2D, "__eq__"): stub_pt_eq}):
+            res = FollowPath.pursue_path(0, 0, tuple(jords))
+        h.ensure("starts-with-the-requested-segment", len(res) >= 1 and res[0] == (0, 0))
+        h.ensure("no-segment-twice-and-indices-valid", len(set(res)) == len(res) and all(0 <= a < nj and 0 <= b < nsegs[a] for a, b in res))
+        cs = []
+        for (a, b), (c, d) in zip(res[:-1], res[1:]):
+            others = [j for j in range(nj) if j != a]
+            none_on = z3.And(*[z3.Not(ON(a, b, j).t) for j in others]) if others else z3.BoolVal(True)
+            if c == a:
+                cs.append(z3.And(none_on, z3.BoolVal(d == (b + 1) % nsegs[a])))
+            else:
+                cs.append(z3.And(ON(a, b, c).t, z3.Or(EQP(a, b, c, d).t, z3.Not(z3.Or(*[EQP(a, b, c, m).t for m in range(nsegs[c])])))))
+        h.ensure("every-step-continues-or-switches-at-a-shared-point", SymBool(z3.And(*cs)) if cs else True)
+
+
+_mk_pursue((2, 2))
+_mk_pursue((3, 2))
+_mk_pursue((2, 2, 2))
